@@ -130,6 +130,9 @@ func answer(in rpcIn) []byte {
 	errAns := fmt.Sprintf(`{"jsonrpc":"2.0","id":%s,"error":{"code":-32000,"message":"scripted refusal"}}`, in.ID)
 	switch in.Method {
 	case "initialize":
+		if a, known := malformedAnswer(in.Params.ClientInfo.Name, in.ID); known {
+			return a // a malformed-answer scenario (malformed.go); nil = the peer stays silent
+		}
 		switch in.Params.ClientInfo.Name {
 		case "rpcErr":
 			return []byte(errAns)
@@ -164,6 +167,13 @@ func newFakeStreamable() *httptest.Server {
 			}
 			if in.Method == "initialize" {
 				w.Header().Set("Mcp-Session-Id", "fake-session-0123456789abcdef")
+				if _, framed, _ := scenarioOf(in.Params.ClientInfo.Name); framed {
+					// the same answer as the single event of an SSE-framed POST response
+					w.Header().Set("Content-Type", "text/event-stream")
+					w.WriteHeader(200)
+					fmt.Fprintf(w, "event: message\ndata: %s\n\n", a)
+					return
+				}
 			}
 			w.Header().Set("Content-Type", "application/json")
 			w.WriteHeader(200)
